@@ -34,7 +34,7 @@ class TracedMech:
         return "EngineStarted" in box or "BenchmarkFailure" in box
 
     def find(self, want, faults=True, max_resets=100):
-        for dec in self.w.enabled(faults=faults, max_resets=max_resets):
+        for dec in self.w.enabled(faults=faults, max_resets=max_resets, max_procs=100):
             if self.w.decision_event(dec) == tuple(want):
                 return dec
         return None
@@ -43,7 +43,7 @@ class TracedMech:
         """script: [(ev, a, b)] from a TLC behaviour / counterexample / replay file (steps that are not enabled are skipped).
         Afterwards (unless strict) a seeded random policy drives the system until no decision that counts as progress is
         enabled: faults are injected with probability fault_prob per step at which one is possible, a started node's process is
-        put into a condition other than alive (gone / dying while terminated / ignoring SIGTERM) with probability proc_prob per
+        put into a condition other than alive (gone / dying while terminated / ignoring SIGTERM / ignoring SIGTERM and gone when killed) with probability proc_prob per
         step, the node actors' periodic flush wake-ups and ResetRelativeTime are sprinkled in. Returns (#followed, #skipped)."""
         followed = skipped = 0
         for want in script:
